@@ -22,7 +22,7 @@ theorem finishCall_eff (g : Cfg) (r : S × Ret) :
       obtain ⟨d1, _, _, _, d5, d6⟩ := hD
       simp [he, d1, d5, d6]
   · rename_i he
-    simp [closeNow, he]
+    simp [flip, he]
 
 /-- c.write: either the whole input is accepted (a prefix of it goes out directly) or nothing happens -/
 theorem writeInner_ret (g : Cfg) (s : S) (b : Bytes) (k : KAns) (hp : AllPos s.wl) :
